@@ -140,6 +140,16 @@ structure CompositeDef where
   fields : List (String × SqlType)
   deriving Inhabited
 
+/-- see `World.bucketTemplate` (a forward reference: the tables of the template) -/
+structure BucketSchemaRef where
+  tables : List Table
+  funcs : List PlFunc
+  composites : List (String × List (String × SqlType))
+  enums : List (String × List String)
+  seqs : List String
+  migrations : Nat
+  deriving Inhabited
+
 structure World where
   tables : List Table := []
   seqs : List Seq := []
@@ -152,6 +162,10 @@ structure World where
   /-- logical clock, microseconds since the epoch -/
   clock : Int := 1700000000000000
   buckets : List String := []
+  /-- schema of a migrated bucket and the number of its migrations: a bucket that
+      is referenced but does not exist yet is instantiated from it (migrating a
+      bucket is treated as instantaneous and out of band) -/
+  bucketTemplate : Option (BucketSchemaRef) := none
   deriving Inhabited
 
 /-- the bucket-relative schema produced by T2 (`Ledger.Generated.Schema`) -/
@@ -163,6 +177,47 @@ structure BucketSchema where
   /-- sequences owned by serial columns -/
   seqs : List String
   deriving Inhabited
+
+def BucketSchema.toRef (s : BucketSchema) (migrations : Nat) : BucketSchemaRef :=
+  { tables := s.tables, funcs := s.funcs, composites := s.composites, enums := s.enums, seqs := s.seqs,
+    migrations := migrations }
+
+def sqlTy (n : String) : SqlType := .mk "" n "" false
+
+/-- the go-libs migrator's bookkeeping table, with every migration applied -/
+def versionsTable (bucket : String) (migrations : Nat) (now : Int) : Table :=
+  { name := bucket ++ ".goose_db_version"
+    cols := [
+      { name := "version_id", ty := sqlTy "int8", notNull := true },
+      { name := "is_applied", ty := sqlTy "bool", notNull := true, dflt := some (.bool false) },
+      { name := "tstamp", ty := sqlTy "timestamp", notNull := true, dflt := some (.call "" "now" []) },
+      { name := "id", ty := sqlTy "int4", notNull := true },
+      { name := "max_counter", ty := sqlTy "numeric" },
+      { name := "actual_counter", ty := sqlTy "numeric" },
+      { name := "terminated_at", ty := sqlTy "timestamp" } ]
+    uniques := [
+      { name := "goose_db_version_pkey", cols := ["id"], primary := true },
+      { name := "idx_goose_db_version_version_id", cols := ["version_id"] } ]
+    rows := (List.range (migrations + 1)).reverse.map (fun i =>
+      { rid := i + 1, xmin := 0, cmin := 0,
+        vals := [.int i, .bool true, .ts now, .int (i + 1), .null, .null, .ts now] })
+    nextRid := migrations + 2 }
+
+/-- create the objects of a (fully migrated) bucket under the given schema name -/
+def instantiateBucket (w : World) (sch : BucketSchemaRef) (bucket : String) : World :=
+  if w.buckets.contains bucket then w else
+  let tables := sch.tables.map (fun t =>
+    { t with name := bucket ++ "." ++ t.name,
+             triggers := t.triggers.map (fun tr => { tr with fname := bucket ++ "." ++ tr.fname }),
+             fks := t.fks.map (fun fk => { fk with refTable := bucket ++ "." ++ fk.refTable }) })
+  { w with
+    tables := w.tables ++ tables ++ [versionsTable bucket sch.migrations w.clock]
+    funcs := w.funcs ++ sch.funcs.map (fun f => (bucket ++ "." ++ f.name, f))
+    seqs := w.seqs ++ sch.seqs.map (fun s => { name := bucket ++ "." ++ s })
+    -- composite types and enums are looked up by bare name (every bucket defines the same ones)
+    types := { composites := w.types.composites ++ sch.composites.filter (fun c => !(w.types.composites.any (·.1 == c.1))),
+               enums := w.types.enums ++ sch.enums.filter (fun e => !(w.types.enums.any (·.1 == e.1))) }
+    buckets := w.buckets ++ [bucket] }
 
 def World.table? (w : World) (name : String) : Option Table :=
   w.tables.find? (·.name == name)
